@@ -1,7 +1,8 @@
 package main
 
 // Gen/Seal.v — synchronisation skeleton of SecretStore.SealEnvelope and the datastore
-// accesses (through helper calls) that lie between the lock and the return.
+// accesses (through helper calls) that lie between the lock and the return; the same for
+// getOwnDeviceChainKeyForGroup (first use of a group: look-up and creation of the own chain key).
 func init() {
 	extractors = append(extractors, func() {
 		f := parse("pkg/secretstore/secret_store_messages.go")
@@ -9,6 +10,9 @@ func init() {
 			[]string{"getDeviceChainKeyForGroupAndDevice", "sealEnvelope", "deriveDeviceChainKey"})) + ".\n"
 		body += "Definition skel_derive : list string := " + coqStrList(skeletonWithCalls(funcDecl(f, "secretStore", "deriveDeviceChainKey"),
 			[]string{"preComputeNextKey", "updateCurrentKey"})) + ".\n"
+		// first use: the own chain key is looked up and, if missing, created under ONE write lock
+		body += "Definition skel_own_chain_key : list string := " + coqStrList(skeletonWithCalls(funcDecl(f, "secretStore", "getOwnDeviceChainKeyForGroup"),
+			[]string{"getDeviceChainKeyForGroupAndDevice", "newDeviceChainKey", "registerChainKey"})) + ".\n"
 		write("Seal.v", body)
 	})
 }
